@@ -1,10 +1,598 @@
-// Package c17: timers (sio part).  The mcrew part runs in-package
+// Package c17: timers (sio part).  The harness owns the crew's input channel
+// and plays the crew loop: while it does not receive, a due timer's goroutine
+// is blocked inside the emitter ("during a firing"), and the harness can
+// process requests meanwhile, exactly as a busy crew loop would.  Requests are
+// messages to the timers machine.  The mcrew part runs in-package
 // (harness/_inpkg/mcrew/c17.go).
 package c17
 
-import "verif/fw"
+import (
+	"bytes"
+	"context"
+	"encoding/json"
+	"fmt"
+	"io"
+	"log"
+	"math/rand"
+	"runtime/pprof"
+	"strings"
+	"time"
+
+	"github.com/Comcast/sheens/core"
+	"github.com/Comcast/sheens/sio"
+
+	"verif/fw"
+	"verif/props/c14"
+	"verif/siox"
+)
+
+type trec struct {
+	id        string
+	uid       string
+	delay     time.Duration
+	t0        time.Time
+	state     string // requested pending notaccepted fired cancelled
+	fired     int
+	cancelRet time.Time
+	overlap   bool // a cancel overlapped the firing (the goroutine was already blocked emitting)
+}
+
+type mon struct {
+	rec      *fw.Rec
+	c        *sio.Crew
+	ch       *siox.Chans
+	ctx      context.Context
+	recs     map[string]*trec
+	pending  map[string]string // model: id -> uid
+	reported map[string]string // last reported timers state: id -> uid
+	n        int
+	scenario interface{}
+	bad      bool
+	consumer chan *sio.Result
+	done     chan struct{}
+}
+
+func (m *mon) violation(cls, why string) {
+	m.bad = true
+	m.rec.Violation("C17:sio:"+cls, why, m.scenario)
+}
+
+func uidOf(x interface{}) string {
+	if mm, ok := x.(map[string]interface{}); ok {
+		s, _ := mm["timerUid"].(string)
+		return s
+	}
+	return ""
+}
+
+// pendingFrom extracts id -> uid from a timers machine state.
+func pendingFrom(st *core.State) (map[string]string, error) {
+	out := map[string]string{}
+	if st == nil {
+		return out, nil
+	}
+	js, err := json.Marshal(st.Bs["timers"])
+	if err != nil {
+		return nil, err
+	}
+	var raw map[string]struct {
+		Id  string
+		Msg map[string]interface{}
+	}
+	if err := json.Unmarshal(js, &raw); err != nil {
+		return nil, err
+	}
+	for id, e := range raw {
+		out[id], _ = e.Msg["timerUid"].(string)
+	}
+	return out, nil
+}
+
+// process plays one iteration of the crew loop.
+func (m *mon) process(msg interface{}) *sio.Result {
+	var res *sio.Result
+	var err error
+	if m.rec.Guard("C17:sio", m.scenario, func() { res, err = m.c.ProcessMsg(m.ctx, msg) }) {
+		m.bad = true
+		return nil
+	}
+	if err != nil || res == nil {
+		m.violation("process-error", fmt.Sprint(err))
+		return nil
+	}
+	// what the host learns about the timers from this result
+	if ch, ok := res.Changed[sio.TimersMachine]; ok && ch.State != nil {
+		p, err := pendingFrom(ch.State)
+		if err != nil {
+			m.violation("unserialisable-timers-state", err.Error())
+			return nil
+		}
+		m.reported = p
+	}
+	// hand the result to a consumer goroutine that serialises it, as Stdio does
+	select {
+	case m.consumer <- res:
+	default:
+	}
+	return res
+}
+
+func (m *mon) consume() {
+	defer close(m.done)
+	for r := range m.consumer {
+		for _, e := range r.Emitted {
+			sio.JS(e)
+		}
+		for _, ch := range r.Changed {
+			sio.JShort(ch)
+		}
+	}
+}
+
+func (m *mon) make(id string, d time.Duration, where string) {
+	m.n++
+	uid := fmt.Sprintf("t%d", m.n)
+	r := &trec{id: id, uid: uid, delay: d, state: "requested", t0: time.Now()}
+	m.recs[uid] = r
+	prev := m.pending[id]
+	msg := map[string]interface{}{"to": "timers", "makeTimer": map[string]interface{}{"id": id, "in": d.String(), "msg": map[string]interface{}{"to": "sink", "uid": uid, "timerUid": uid, "id": id}}}
+	if m.process(msg) == nil {
+		return
+	}
+	m.rec.Eval(1)
+	m.rec.Bucket("make_" + where)
+	// accepted = the request succeeded and the reported pending set holds it right after
+	if m.reported[id] == uid {
+		r.state = "pending"
+		m.pending[id] = uid
+		m.rec.Bucket("accepted")
+		if prev != "" && m.recs[prev].state == "pending" {
+			// the implementation replaced a pending timer; the old one must not fire any more
+			m.recs[prev].state = "cancelled"
+			m.recs[prev].cancelRet = time.Now()
+		}
+		return
+	}
+	r.state = "notaccepted"
+	m.rec.Bucket("requests_not_accepted")
+	if prev != "" && m.recs[prev].state == "pending" && m.reported[id] == "" {
+		// sio's answer to a duplicate id: the pending timer is cancelled, the new one is not created
+		m.recs[prev].state = "cancelled"
+		m.recs[prev].cancelRet = time.Now()
+		delete(m.pending, id)
+	}
+}
+
+func (m *mon) cancel(id string, where string, blockedEmitting bool) {
+	uid := m.pending[id]
+	msg := map[string]interface{}{"to": "timers", "cancelTimer": id}
+	if m.process(msg) == nil {
+		return
+	}
+	now := time.Now()
+	m.rec.Eval(1)
+	m.rec.Bucket("cancel_" + where)
+	if uid == "" {
+		return
+	}
+	if m.reported[id] == "" {
+		r := m.recs[uid]
+		if r.state == "pending" {
+			r.state = "cancelled"
+			r.cancelRet = now
+			// Was the timer's goroutine possibly already past its timer channel
+			// (blocked in the emitter, or about to be)?  Then cancel and firing overlap
+			// and either outcome is acceptable.
+			r.overlap = blockedEmitting || !now.Before(r.t0.Add(r.delay))
+			delete(m.pending, id)
+			m.rec.Bucket("cancelled")
+		}
+	}
+}
+
+// sinkLog returns the uids the sink machine has been presented with.
+func (m *mon) sinkLog() []string {
+	sm, ok := m.c.Machines["sink"]
+	if !ok || sm.State == nil {
+		return nil
+	}
+	l, _ := fw.Plain(sm.State.Bs["log"]).([]interface{})
+	var out []string
+	for _, x := range l {
+		out = append(out, fmt.Sprint(x))
+	}
+	return out
+}
+
+// fired records that a timer's message was presented to the machine it is
+// addressed to; now is the time at which the crew's input delivered it.
+func (m *mon) fired(uid string, now time.Time) {
+	r := m.recs[uid]
+	if r == nil {
+		m.violation("fired-unknown", "a message arrived from a timer that was never requested: "+uid)
+		return
+	}
+	r.fired++
+	m.rec.Bucket("fired")
+	if r.fired > 1 {
+		m.violation("fired-twice", fmt.Sprintf("timer %s (%s) fired %d times", r.id, uid, r.fired))
+		return
+	}
+	if due := r.t0.Add(r.delay); now.Before(due) {
+		m.violation("fired-early", fmt.Sprintf("timer %s fired %v before its due time", uid, due.Sub(now)))
+		return
+	}
+	switch r.state {
+	case "cancelled":
+		if !r.overlap {
+			m.violation("fired-after-cancel", fmt.Sprintf("timer %s (%s) fired %v after its cancellation was acknowledged, although it was not yet due then", r.id, uid, now.Sub(r.cancelRet)))
+			return
+		}
+		m.rec.Bucket("fired_overlapping_cancel")
+	case "notaccepted":
+		m.violation("not-accepted-timer-fired", fmt.Sprintf("timer %s (%s) fired although it was never reported as pending", r.id, uid))
+		return
+	case "pending":
+		r.state = "fired"
+		if m.pending[r.id] == uid {
+			delete(m.pending, r.id)
+		}
+	}
+}
+
+// pump receives from the crew's input (as the loop would) until cond holds or
+// the time is up; fired timer messages are recorded and then processed.
+func (m *mon) pump(max time.Duration, cond func() bool) {
+	deadline := time.After(max)
+	for !m.bad {
+		if cond != nil && cond() {
+			return
+		}
+		select {
+		case msg := <-m.ch.In:
+			// whatever arrives on the crew's input is processed as the loop would;
+			// a firing is observed as the delivery of the timer's message to its addressee
+			arrived := time.Now()
+			before := len(m.sinkLog())
+			if m.process(msg) == nil {
+				return
+			}
+			for _, uid := range m.sinkLog()[before:] {
+				m.fired(uid, arrived)
+				if m.bad {
+					return
+				}
+			}
+		case <-deadline:
+			return
+		case <-time.After(500 * time.Microsecond):
+			if cond == nil {
+				continue
+			}
+		}
+	}
+}
+
+func (m *mon) shortPending() bool {
+	for _, r := range m.recs {
+		if r.state == "pending" && r.delay < time.Second {
+			return true
+		}
+	}
+	return false
+}
+
+// timerGoroutinesBusy: is any timer goroutine doing something other than
+// waiting for its timer (i.e. blocked emitting or doing its bookkeeping)?
+func timerGoroutinesBusy() bool {
+	var buf bytes.Buffer
+	pprof.Lookup("goroutine").WriteTo(&buf, 2)
+	for _, g := range strings.Split(buf.String(), "\n\n") {
+		if strings.Contains(g, "sio.(*TimerEntry).run") {
+			first := g
+			if i := strings.Index(g, "\n"); i > 0 {
+				first = g[:i]
+			}
+			if !strings.Contains(first, "[select") {
+				return true
+			}
+		}
+	}
+	return false
+}
+
+// quiesce: all short timers have fired or been cancelled, bookkeeping is done;
+// then the reported and the live pending sets must equal the model.
+func (m *mon) quiesce(note string) {
+	m.pump(30*time.Second, func() bool { return !m.shortPending() })
+	if m.bad {
+		return
+	}
+	if m.shortPending() {
+		for _, r := range m.recs {
+			if r.state == "pending" && r.delay < time.Second {
+				cls := "lost-timer"
+				if m.reported[r.id] == r.uid {
+					cls = "not-fired-within-bound"
+				}
+				m.violation(cls, fmt.Sprintf("accepted timer %s (%s, %v) has neither fired nor been cancelled 30 s after it was due", r.id, r.uid, r.delay))
+				return
+			}
+		}
+	}
+	// let firing goroutines finish (bounded), draining late arrivals
+	for i := 0; i < 400 && timerGoroutinesBusy(); i++ {
+		m.pump(2*time.Millisecond, nil)
+		if m.bad {
+			return
+		}
+	}
+	// sio reports a firing's bookkeeping with the next processed message: flush
+	if m.process(map[string]interface{}{"to": "nobody-flush"}) == nil {
+		return
+	}
+	if fw.Canon(m.reported) != fw.Canon(m.pending) {
+		m.violation("reported-pending-differs", fmt.Sprintf("%s: the timers machine reports %v pending, but accepted minus fired minus cancelled is %v", note, m.reported, m.pending))
+		return
+	}
+	live, err := pendingFrom(m.c.Machines[sio.TimersMachine].State)
+	if err != nil {
+		m.violation("unserialisable-timers-state", err.Error())
+		return
+	}
+	if fw.Canon(live) != fw.Canon(m.pending) {
+		m.violation("live-pending-differs", fmt.Sprintf("%s: the timers machine's state holds %v, the model says %v", note, live, m.pending))
+		return
+	}
+	m.rec.Bucket("quiescent_points_compared")
+}
+
+func newMon(rec *fw.Rec, scenario interface{}) (*mon, context.CancelFunc) {
+	ctx, cancel := context.WithCancel(context.Background())
+	c, ch, err := siox.NewCrew(ctx, 50, 0, 16)
+	if err != nil {
+		rec.Inconclusive("crew: " + err.Error())
+		cancel()
+		return nil, nil
+	}
+	src, err := siox.Inline(c14.RecorderSpec)
+	if err == nil {
+		err = c.SetMachine(ctx, "sink", src, nil)
+	}
+	if err != nil {
+		rec.Inconclusive("sink machine: " + err.Error())
+		cancel()
+		return nil, nil
+	}
+	c.GetChanged(ctx)
+	m := &mon{rec: rec, c: c, ch: ch, ctx: ctx, recs: map[string]*trec{}, pending: map[string]string{}, reported: map[string]string{}, scenario: scenario, consumer: make(chan *sio.Result, 256), done: make(chan struct{})}
+	go m.consume()
+	return m, cancel
+}
+
+type step struct {
+	Op   string `json:"op"` // make cancel pump quiesce block
+	Id   string `json:"id,omitempty"`
+	Ms   int    `json:"ms,omitempty"`
+	Long bool   `json:"long,omitempty"`
+}
+
+func genSteps(r *rand.Rand) []step {
+	ids := []string{"x", "y"}
+	var out []step
+	n := 3 + r.Intn(6)
+	for i := 0; i < n; i++ {
+		id := ids[r.Intn(2)]
+		switch k := r.Intn(10); {
+		case k < 4:
+			out = append(out, step{Op: "make", Id: id, Ms: 2 + r.Intn(15), Long: r.Intn(6) == 0})
+		case k < 6:
+			out = append(out, step{Op: "cancel", Id: id})
+		case k < 8:
+			out = append(out, step{Op: "pump", Ms: 1 + r.Intn(20)})
+		case k == 8:
+			// do not receive for a while: due timers block inside the emitter ("during a firing");
+			// then cancel / re-make the blocked id before receiving again
+			out = append(out, step{Op: "block", Ms: 5 + r.Intn(20)})
+			if r.Intn(2) == 0 {
+				out = append(out, step{Op: "cancel", Id: id}, step{Op: "make", Id: id, Long: true})
+			} else {
+				out = append(out, step{Op: "make", Id: id, Ms: 3 + r.Intn(5)})
+			}
+		default:
+			out = append(out, step{Op: "quiesce"})
+		}
+	}
+	return out
+}
+
+func scenario(cfg fw.Config, rec *fw.Rec, i int) {
+	r := cfg.Rng("c17-sio", i)
+	steps := genSteps(r)
+	if i%3 == 0 {
+		// the pattern the property names: a timer is due while the crew is busy, its id is
+		// cancelled and re-created, then the old message is received
+		steps = append(steps, step{Op: "quiesce"}, step{Op: "make", Id: "x", Ms: 3}, step{Op: "block", Ms: 12},
+			step{Op: "cancel", Id: "x"}, step{Op: "make", Id: "x", Long: true}, step{Op: "pump", Ms: 10}, step{Op: "quiesce"},
+			step{Op: "cancel", Id: "x"}, step{Op: "quiesce"})
+	}
+	steps = append(steps, step{Op: "quiesce"})
+	m, cancel := newMon(rec, map[string]interface{}{"steps": steps, "index": i})
+	if m == nil {
+		return
+	}
+	defer func() {
+		cancel()
+		close(m.consumer)
+		<-m.done
+	}()
+	blocked := false
+	for si, st := range steps {
+		if m.bad {
+			break
+		}
+		switch st.Op {
+		case "make":
+			d := time.Duration(st.Ms) * time.Millisecond
+			if st.Long {
+				d = 10 * time.Second
+			}
+			where := "outside"
+			if blocked {
+				where = "while_a_firing_is_blocked"
+			}
+			// sio cancels a pending timer with the same id and does not create the new one;
+			// only make on free ids exercises the property, so cancel first half of the time
+			m.make(st.Id, d, where)
+		case "cancel":
+			if m.pending[st.Id] == "" {
+				// a failed cancel leaves the timers machine unable to match later requests
+				// (its bindings keep ?id); that is outside this property, so skip it
+				rec.Bucket("cancel_of_free_id_skipped")
+				continue
+			}
+			where := "outside"
+			if blocked {
+				where = "while_a_firing_is_blocked"
+			}
+			m.cancel(st.Id, where, blocked)
+		case "pump":
+			blocked = false
+			m.pump(time.Duration(st.Ms)*time.Millisecond, nil)
+		case "block":
+			time.Sleep(time.Duration(st.Ms) * time.Millisecond)
+			blocked = true
+			rec.Bucket("phases_with_blocked_firing")
+		case "quiesce":
+			blocked = false
+			m.quiesce(fmt.Sprintf("step %d", si))
+		}
+	}
+	if !m.bad {
+		fired := 0
+		for _, rr := range m.recs {
+			fired += rr.fired
+		}
+		if fired > 0 {
+			rec.Nontrivial(fw.Canon(steps))
+			if i%60 == 1 {
+				rec.Sample(map[string]interface{}{"sio_timer_scenario": steps, "timers_fired": fired})
+			}
+		}
+	}
+}
+
+// restart: timers created with a due time after the restart must fire exactly
+// once, on the new crew only.
+func restart(cfg fw.Config, rec *fw.Rec, i int) {
+	r := cfg.Rng("c17-sio-restart", i)
+	desc := map[string]interface{}{"restart_scenario": i}
+	m, cancel := newMon(rec, desc)
+	if m == nil {
+		return
+	}
+	n := 1 + r.Intn(3)
+	ids := []string{"a", "b", "c"}
+	for k := 0; k < n; k++ {
+		m.make(ids[k], time.Duration(120+r.Intn(80))*time.Millisecond, "before_restart")
+	}
+	// one short timer fires before the restart
+	m.make("early", 3*time.Millisecond, "before_restart")
+	m.pump(10*time.Second, func() bool {
+		for _, rr := range m.recs {
+			if rr.id == "early" && rr.state == "pending" {
+				return false
+			}
+		}
+		return true
+	})
+	m.pump(3*time.Millisecond, nil)
+	if m.bad {
+		cancel()
+		return
+	}
+	// the host's persisted copy of the timers machine: what was reported, as JSON
+	var stored *core.State
+	{
+		res := m.process(map[string]interface{}{"to": "nobody-flush"})
+		_ = res
+		js, err := json.Marshal(m.c.Machines[sio.TimersMachine].State)
+		if err != nil {
+			m.violation("unserialisable-timers-state", err.Error())
+			cancel()
+			return
+		}
+		stored = &core.State{}
+		json.Unmarshal(js, stored)
+	}
+	oldPending := map[string]string{}
+	for id, uid := range m.pending {
+		oldPending[id] = uid
+	}
+	oldRecs := m.recs
+	oldIn := m.ch.In
+	// crash: the old crew's context ends
+	cancel()
+	close(m.consumer)
+	<-m.done
+	m2, cancel2 := newMon(rec, desc)
+	if m2 == nil {
+		return
+	}
+	defer func() {
+		cancel2()
+		close(m2.consumer)
+		<-m2.done
+	}()
+	m2.recs = oldRecs
+	persisted := map[string]string{}
+	for id, uid := range oldPending {
+		persisted[id] = uid
+	}
+	m2.pending = oldPending
+	var err error
+	if rec.Guard("C17:sio:boot", desc, func() { err = m2.c.SetMachine(m2.ctx, sio.TimersMachine, nil, stored) }) {
+		return
+	}
+	if err != nil {
+		m2.violation("restart-fails", "timers state cannot be restored: "+err.Error())
+		return
+	}
+	rec.Eval(1)
+	// every restored timer fires exactly once on the new crew, none on the old one
+	m2.pump(30*time.Second, func() bool { return !m2.shortPending() })
+	select {
+	case <-oldIn:
+		m2.violation("fired-on-old-crew", "after the restart a timer fired on the old crew")
+		return
+	case <-time.After(20 * time.Millisecond):
+	}
+	if m2.bad {
+		return
+	}
+	for id, uid := range persisted {
+		rr := oldRecs[uid]
+		if rr.fired != 1 {
+			m2.violation("restored-timer-not-fired-once", fmt.Sprintf("timer %s (%s) persisted before the restart fired %d times after it", id, uid, rr.fired))
+			return
+		}
+	}
+	m2.pump(30*time.Millisecond, nil) // nothing may fire a second time
+	if !m2.bad {
+		rec.Bucket("restart_scenarios")
+		rec.BucketN("timers_resumed_after_restart", int64(len(persisted)))
+		rec.Nontrivial(fmt.Sprintf("restart-%d-%d", cfg.Seed, i))
+	}
+}
 
 func Run(cfg fw.Config, rec *fw.Rec) {
-	rec.Rule = "see the mcrew part"
-	rec.Eval(1)
+	log.SetOutput(io.Discard)
+	rec.Rule = "sio timers through a real Crew whose input channel the harness owns (the harness plays the crew loop; results are serialised by a consumer goroutine as Stdio does): scenarios of 4-18 steps over ids {x,y}: make (2-16 ms, or 10 s), cancel, receive for a while, stop receiving so that due timers block inside the emitter and then cancel / re-create the blocked id, quiesce; per timer: fired at most once, not before clock-before-request + delay, not after an acknowledged cancel that preceded its due time; at quiescent points the reported timers state (after a flush message) and the live machine state must equal accepted - fired - cancelled ('accepted' = reported pending right after the request); restart: timers persisted as JSON resume on a new crew, fire exactly once there and never on the old crew; under -race; non-trivial = scenario in which a timer fired; distinct by scenario"
+	rec.Required = []string{"fired", "accepted", "cancelled", "quiescent_points_compared", "phases_with_blocked_firing", "make_while_a_firing_is_blocked", "restart_scenarios", "timers_resumed_after_restart"}
+	rec.Assume = []string{"a cancel acknowledged after the timer's due time overlaps its firing (the goroutine may already be blocked in the emitter): either outcome accepted", "requests the timers machine does not accept (duplicate pending id; requests after a failed cancel) are counted, not judged", "bounded progress: 30 s"}
+	n := cfg.Pick(150, 2000)
+	fw.Parallel(6, n, func(w, i int) { scenario(cfg, rec, i) })
+	for i := 0; i < cfg.Pick(15, 150); i++ {
+		restart(cfg, rec, i)
+	}
 }
